@@ -694,6 +694,12 @@ void QXmppOutgoingClient::handlePacketReceived(const QDomElement &nodeRecv)
 
 HandleElementResult QXmppOutgoingClient::handleElement(const QDomElement &nodeRecv)
 {
+    // with TLS required, stanzas are not processed (and thereby answered) before the connection is encrypted
+    if (nodeRecv.namespaceURI() == ns_client &&
+        d->config.streamSecurityMode() == QXmppConfiguration::TLSRequired && !socket()->isEncrypted()) {
+        return Rejected;
+    }
+
     // handle SM acks, stanza counter and IQ responses
     if (streamAckManager().handleStanza(nodeRecv) || iqManager().handleStanza(nodeRecv)) {
         return Accepted;
